@@ -10,10 +10,10 @@
    while waiting for credit, in mid-flight and while waiting for the outcome; later sends must
    arrive intact, in order, at most once, and must not be starved of credit. *)
 EXTENDS Integers, Sequences, TLC, Json
-CONSTANTS Part, Depth, AutoAccept, Pipe
+CONSTANTS Part, Depth, AutoAccept, Pipe, Buf     \* Buf: capacity of the connection / session channels (1: sends suspend between frames; 256: they do not)
 
 RecvEv == {"Recv", "Cancel", "T1", "T2a", "T2b"}
-SendEv == {"Send", "SendL", "SendM", "SendNow", "SendNowBig", "Cancel", "Yield", "Grant1", "Grant3", "Disp"}
+SendEv == {"Send", "SendL", "SendM", "SendNow", "SendNowBig", "SendNow1", "SendNow2", "Cancel", "Yield", "Grant1", "Grant3", "Disp"}
 VARIABLES script, half
 Init == script = <<>> /\ half = FALSE
 Next == /\ Len(script) < Depth
@@ -22,9 +22,9 @@ Next == /\ Len(script) < Depth
              /\ script' = Append(script, e) /\ half' = (IF e = "T2a" THEN TRUE ELSE IF e = "T2b" THEN FALSE ELSE half)
 Spec == Init /\ [][Next]_<<script, half>>
 
-Open == << [e |-> "AOpen", cfg |-> [mfs |-> 512, buf |-> 1, pipe |-> Pipe]], [e |-> "PHeader", kind |-> "amqp"],
+Open == << [e |-> "AOpen", cfg |-> [mfs |-> 512, buf |-> Buf, pipe |-> Pipe]], [e |-> "PHeader", kind |-> "amqp"],
            [e |-> "PFrame", perf |-> "open", ch |-> 0, f |-> [mfs |-> 512, chmax |-> 10]],
-           [e |-> "ABegin", s |-> "s1", cfg |-> [noi |-> 1000, iw |-> 1000, ow |-> 100, buf |-> 1]],
+           [e |-> "ABegin", s |-> "s1", cfg |-> [noi |-> 1000, iw |-> 1000, ow |-> 100, buf |-> Buf]],
            [e |-> "PFrame", perf |-> "begin", ch |-> 3, f |-> [rch |-> [ref |-> "s1"], noi |-> 0, iw |-> 1000, ow |-> 100]] >>
 RecvPrefix == Open \o << [e |-> "AAttachR", l |-> "L2", s |-> "s1", cfg |-> [snd |-> 2, rcv |-> 0, credit |-> 20, auto_accept |-> AutoAccept]],
                          [e |-> "PFrame", perf |-> "attach", ch |-> 3, f |-> [name |-> "L2", h |-> 6, role |-> "s", snd |-> 2, rcv |-> 0, idc |-> 0]] >>
@@ -50,6 +50,9 @@ SBody(sc, i, m, d) == IF i > Len(sc) THEN <<>> ELSE LET e == sc[i] IN
     [] e = "SendM" -> <<[e |-> "ASend", l |-> "L1", m |-> m, len |-> 1400]>> \o SBody(sc, i + 1, m + 1, d)
     [] e = "SendNow" -> <<[e |-> "ASend", l |-> "L1", m |-> m, len |-> 400, nosettle |-> TRUE], [e |-> "Yield", n |-> 30, nosettle |-> TRUE], [e |-> "ACancel", l |-> "L1"]>> \o SBody(sc, i + 1, m + 1, d)
     [] e = "SendNowBig" -> <<[e |-> "ASend", l |-> "L1", m |-> m, len |-> 1400, nosettle |-> TRUE], [e |-> "Yield", n |-> 30, nosettle |-> TRUE], [e |-> "ACancel", l |-> "L1"]>> \o SBody(sc, i + 1, m + 1, d)
+    \* a send of three link-level frames dropped after one / two scheduler turns
+    [] e = "SendNow1" -> <<[e |-> "ASend", l |-> "L1", m |-> m, len |-> 400, nosettle |-> TRUE], [e |-> "Yield", n |-> 1, nosettle |-> TRUE], [e |-> "ACancel", l |-> "L1"]>> \o SBody(sc, i + 1, m + 1, d)
+    [] e = "SendNow2" -> <<[e |-> "ASend", l |-> "L1", m |-> m, len |-> 400, nosettle |-> TRUE], [e |-> "Yield", n |-> 2, nosettle |-> TRUE], [e |-> "ACancel", l |-> "L1"]>> \o SBody(sc, i + 1, m + 1, d)
     [] e = "Cancel" -> <<[e |-> "ACancel", l |-> "L1"]>> \o SBody(sc, i + 1, m, d)
     [] e = "Yield" -> <<[e |-> "Yield", n |-> 5]>> \o SBody(sc, i + 1, m, d)
     [] e = "Grant1" -> <<Grant(1)>> \o SBody(sc, i + 1, m, d)
@@ -57,6 +60,6 @@ SBody(sc, i, m, d) == IF i > Len(sc) THEN <<>> ELSE LET e == sc[i] IN
     [] OTHER -> <<[e |-> "PFrame", perf |-> "disposition", ch |-> 3, ech |-> 0, f |-> [role |-> "r", first |-> [d |-> d], last |-> -1, settled |-> TRUE, state |-> [k |-> "accepted", cond |-> "", txn |-> <<>>]]]>> \o SBody(sc, i + 1, m, d + 1)
 SSuffix == << [e |-> "ACancel", l |-> "L1"], Grant(20), [e |-> "ASend", l |-> "L1", m |-> 90, len |-> 400, settled |-> TRUE], [e |-> "ASend", l |-> "L1", m |-> 91, len |-> 20, settled |-> TRUE] >>
 Done == Len(script) = Depth
-Emit == Done => PrintT(<<"SCRIPT", ToJson([side |-> "client", id |-> <<Part, AutoAccept, Pipe>> \o script, final_ms |-> 5000,
+Emit == Done => PrintT(<<"SCRIPT", ToJson([side |-> "client", id |-> <<Part, AutoAccept, Pipe, Buf>> \o script, final_ms |-> 5000,
                            ev |-> IF Part = "recv" THEN RecvPrefix \o RBody(script, 1, 0) \o RSuffix ELSE SendPrefix \o SBody(script, 1, 1, 0) \o SSuffix])>>)
 =============================================================================
